@@ -23,19 +23,19 @@ var bigOne = big.NewInt(1)
 // ---------------------------------------------------------------------------
 
 type Obligation struct {
-	Fn      string // function key
-	Kind    string // index, slice, nil, ovf, post.<label>, inv.init[k].<label>, ...
-	Name    string // Fn#Kind
-	Pos     token.Position
-	Facts   []T
-	Goal    T
-	Desc    string
-	Decls   *Decls
-	Entry   *EntrySnapshot
-	PathID  int
-	Result  *SolverResult
-	Trivial bool
-	relAlt  func() *Obligation // weaker alternative tried when the obligation is not discharged
+	Fn         string // function key
+	Kind       string // index, slice, nil, ovf, post.<label>, inv.init[k].<label>, ...
+	Name       string // Fn#Kind
+	Pos        token.Position
+	Facts      []T
+	Goal       T
+	Desc       string
+	Decls      *Decls
+	Entry      *EntrySnapshot
+	PathID     int
+	Result     *SolverResult
+	Trivial    bool
+	relAlt     func() *Obligation // weaker alternative tried when the obligation is not discharged
 	relAltFull bool
 }
 
@@ -67,6 +67,7 @@ type State struct {
 	iters    map[*ssa.BasicBlock]int
 	ghost    map[string]Val      // ghost variables (lock state, ...)
 	fresh    []T                 // refs allocated on this path
+	frontier T                   // allocation frontier: objects that exist now have addresses 0 < r <= frontier
 	lits     map[*Region][]int16 // known constant bytes of array/literal regions (-1 unknown)
 	heads    map[int]*State      // state at the head of each open loop (by ordinal), for at(k, e)
 	depth    int
@@ -122,6 +123,7 @@ func (s *State) clone() *State {
 	n.facts = append([]T(nil), s.facts...)
 	n.defers = append([]deferred(nil), s.defers...)
 	n.fresh = append([]T(nil), s.fresh...)
+	n.frontier = s.frontier
 	return n
 }
 
@@ -171,32 +173,32 @@ type retPath struct {
 }
 
 type Exec struct {
-	prog          *Program
-	decls         *Decls
-	obs           []*Obligation
-	fnKey         string
-	top           *frame
-	paths         int
-	maxPath       int
-	regionN       int
-	cellN         int
-	notes         map[string]bool // out-of-subset notes, assumptions used
-	assumed       map[string]bool // assumed contracts used
-	mode          ExecMode
-	snap          *EntrySnapshot
-	covers        []*Obligation // reachability covers
-	aborted       string
-	inlineDepth   int
-	rel           *relCtx
-	inlinedFns    map[string]bool
-	usedContracts map[string]bool
-	gcells        map[*ssa.Global]*Cell
-	dynHeapSorts  map[string][]string
-	initMode      bool
-	noInits       bool
-	initRefs      int
-	relMode       bool
-	relQuant      bool
+	prog            *Program
+	decls           *Decls
+	obs             []*Obligation
+	fnKey           string
+	top             *frame
+	paths           int
+	maxPath         int
+	regionN         int
+	cellN           int
+	notes           map[string]bool // out-of-subset notes, assumptions used
+	assumed         map[string]bool // assumed contracts used
+	mode            ExecMode
+	snap            *EntrySnapshot
+	covers          []*Obligation // reachability covers
+	aborted         string
+	inlineDepth     int
+	rel             *relCtx
+	inlinedFns      map[string]bool
+	usedContracts   map[string]bool
+	gcells          map[*ssa.Global]*Cell
+	dynHeapSorts    map[string][]string
+	initMode        bool
+	noInits         bool
+	initRefs        int
+	relMode         bool
+	relQuant        bool
 	includeRootInit bool
 }
 
@@ -377,7 +379,7 @@ func (ex *Exec) unflatten(st *State, comps []T, t types.Type, strict bool) (Val,
 		}
 		return VOpaque{comps[0], t}, comps[1:]
 	case *types.Signature:
-		if f, ok := ex.prog.funcByID[comps[0]]; ok {
+		if f, ok := ex.prog.lookupFuncByID(comps[0]); ok {
 			return f, comps[1:]
 		}
 		return VFunc{ID: comps[0]}, comps[1:]
@@ -674,6 +676,20 @@ func (ex *Exec) runTop(fn *ssa.Function) {
 		f.free = append(f.free, VCellPtr{C: c})
 		snap.Params = append(snap.Params, EntryParam{"$free:" + fv.Name(), pt.Elem(), cv, nil})
 	}
+	st.assume(tLe("0", ex.heapTop()))
+	if ex.initRefs > 0 {
+		st.assume(tLe(num(int64(ex.initRefs)), ex.heapTop()))
+	}
+	st.frontier = ex.heapTop()
+	for name, sort := range ex.prog.spec.GhostVars {
+		if _, ok := st.ghost[name]; !ok {
+			if sort == SBool {
+				st.ghost[name] = VBool{ex.decls.fresh("gv_"+name, SBool)}
+			} else {
+				st.ghost[name] = VInt{ex.decls.fresh("gv_"+name, SInt)}
+			}
+		}
+	}
 	if ex.rel != nil {
 		ex.rel.setup(ex, st, f)
 	}
@@ -682,6 +698,8 @@ func (ex *Exec) runTop(fn *ssa.Function) {
 	snap.st = f.entry
 	// assume preconditions
 	if f.con != nil {
+		st.ghost["held"] = VOpaque{T: f.heldAtEntry()}
+		f.entry = st.clone()
 		env := f.specEnv(st, f.entry, nil)
 		for _, c := range f.con.Requires {
 			v := env.evalBool(c.E)
@@ -941,6 +959,7 @@ func (f *frame) load(st *State, p Val, t types.Type, pos token.Pos, ins ssa.Inst
 		}
 		return v
 	case VFieldPtr:
+		f.guardedAccess(st, a.St, a.Field, a.Ref, false, ins)
 		return ex.heapLoad(st, a.St, a.Field, a.Ref)
 	case VGlobalPtr:
 		return ex.prog.globalLoad(ex, st, a.G)
@@ -1157,6 +1176,7 @@ func (f *frame) heapStoreChecked(st *State, n *types.Named, field int, ref T, v 
 	ex := f.ex
 	if ex.mode.Functional && ins != nil {
 		f.frameCheckStore(st, n, field, ref, ins)
+		f.guardedAccess(st, n, field, ref, true, ins)
 	}
 	ex.heapStore(st, n, field, ref, v)
 }
